@@ -33,6 +33,18 @@ CLAIMED['C09'] = (
     'scipy lsq_linear by contract; rates are positive symbols; Z and profile length are concrete per job (stated bounds); '
     'interpolators / map3d beyond node values are outside the claim.',
     'DESIGN.md §4 C09', TECH)
+CLAIMED['C11'] = (
+    'invert_sart / invert_constrained_sart (translated from sart.pyx) are executed for all m x n x iterations shapes up to '
+    '2x2x1, 1x2x2, 2x1x2, 1x1x3 (quick; 2x2x2, 3x2, 2x3, x3 thorough) with weights >= 0 (zero rows / columns included), '
+    'measurements, initial guess, relaxation, beta, Laplacian and tolerance symbolic; per path z3 proves the result equals '
+    'the documented update rule applied k times with clipping, is non-negative, the convergence entries and stopping rule '
+    'are as documented, and an exact non-negative solution is a fixed point. The NNLS / LSTSQ / SVD wrappers are executed '
+    'from source against the library contracts (KKT, normal equations, Moore-Penrose) and shown to return a minimiser of '
+    '|Wx-b|^2 + alpha^2|Lx|^2 with a consistent reported norm.',
+    'scipy nnls / numpy lstsq / scipy pinv by contract (nnls stated on the max(b)-rescaled system: argmin invariant under '
+    'positive rescaling is a stated lemma); shapes concrete per job; SVD only for shapes with one dimension = 1 (2x2 '
+    'Moore-Penrose reasoning is beyond z3 NRA within the budget).',
+    'DESIGN.md §4 C11', TECH)
 NOT_YET = {}
 props = [json.loads(l) for l in open(os.path.join(HERE, 'properties.jsonl'))]
 checks, na = [], []
